@@ -18,6 +18,30 @@ def _canon(req, ans):
     return ans if ans.startswith(_BAD) else "NOPANIC"
 
 
+def _verdict(req, impl, model):
+    """`evm`: crash / abort always counts; where the jq model has a verdict the implementation's run line
+    (outputs, then END / ERR:<payload> / BREAK / HALT:n) must equal it; no verdict, a program the
+    implementation's parser rejects, a non-terminating program or an evaluator disagreement (recorded
+    under C23) are skips.  Every other op: the crash-bit comparison of `_canon`."""
+    t = req.split(" ", 2)
+    op = t[1] if len(t) > 1 else ""
+    if op == "evm":
+        if impl.startswith(_BAD) or impl.startswith("HARNESS-ERROR"):
+            return "disagree"
+        if impl.startswith("NONTERM") or impl == "PARSE-ERROR" or impl.startswith("EVALS-DISAGREE") or "OUT-OF-FRAGMENT" in model:
+            return "skip"
+        return "agree" if impl == model else "disagree"
+    return "agree" if _canon(req, impl) == _canon(req, model) else "disagree"
+
+
+def _counters(triples):
+    evm = [t for t in triples if t[0].split(" ", 2)[1] == "evm"]
+    verd = [t for t in evm if not (t[1].startswith("NONTERM") or t[1] == "PARSE-ERROR" or t[1].startswith("EVALS-DISAGREE") or "OUT-OF-FRAGMENT" in t[2])]
+    return {"evm_runs": len(evm), "evm_runs_with_model_verdict": len(verd),
+            "evm_runs_ending_in_error": sum(1 for t in verd if ";ERR:" in t[1] or t[1].startswith("ERR:")),
+            "evm_nonterm": sum(1 for t in evm if t[1].startswith("NONTERM"))}
+
+
 def _nontrivial(req, out):
     t = req.split(" ")
     return len(t) > 2 and len(t[2]) >= 4 and not out.startswith("NONTERM")
@@ -37,6 +61,8 @@ CFG = {
     "variants": [{"features": [], "env": {"SV_CLI": _CLI}}],
     "needs_cli": True,
     "canon": _canon,
+    "verdict": _verdict,
+    "counters": _counters,
     "lean_modules": ["SuccinctlyVerif.Props.C30"],
     "lean_files": ["SuccinctlyVerif/Props/C30.lean", "SuccinctlyVerif/Model/JqGuards.lean", "SuccinctlyVerif/Proof/JqGuards.lean"],
     "required_theorems": ["SV.Props.C30.guards_bound_allocation_partial", "SV.Props.C30.range_bounded", "SV.Props.C30.repeat_bounded", "SV.Props.C30.setpath_bounded"],
@@ -45,7 +71,8 @@ CFG = {
     "rule": "request = one program (+ one input document); distinct request lines with a program of at least two bytes that terminated",
     "explanation": "parse: jq::parse / parse_program in jq and yq modes on token soups (non-ASCII included) never panics; evx: parse + "
                    "both evaluators + printers in a child process under ulimit -v: no panic, no abort; cli: `succinctly jq -c` / "
-                   "`yq -o json` exit status in {0,1,2,3,5}; guard: sizes produced by range / string repetition / setpath / limit = model",
+                   "`yq -o json` exit status in {0,1,2,3,5}; guard: sizes produced by range / string repetition / setpath / limit = model; "
+                   "evm: extreme-operand programs in a child process, the run line of both evaluators diffed with Model/Jq where it has a verdict",
     "trusted_base": ["C30 monitored part: nothing is proved about the parser or the evaluators; absence of a crash on the generated "
                      "programs only"],
 }
